@@ -7,7 +7,6 @@ import (
 	"strings"
 
 	"github.com/parquet-go/parquet-go"
-	"github.com/parquet-go/parquet-go/compress/gzip"
 	"github.com/parquet-go/parquet-go/compress/snappy"
 	"github.com/parquet-go/parquet-go/deprecated"
 
@@ -104,6 +103,9 @@ var c07Paths = []string{
 	"rowgroup(file,copy)",        // WriteRowGroup of a file row group, same config (verbatim copy)
 	"rowgroup(file,recode)",      // WriteRowGroup of a file row group, other codec (re-encode)
 	"rowgroup(file,nobloom-src)", // source without filter: must be built
+	// WriteRowGroup sizes the filter ahead of time; the dictionary then overflows in the middle of the row group
+	"rowgroup(buffer)+dict-fallback",
+	"rowgroup(file,recode)+dict-fallback",
 }
 
 var c07Reps = []string{"required", "optional", "repeated"}
@@ -206,17 +208,20 @@ func c07Run(x *engine.X) {
 	case "write+deferred":
 		data, ok = write(append(opts, parquet.DeferBloomFiltersWithBuffers(parquet.NewBufferPool())), rowsFill)
 	case "write+gzipfilter":
-		data, ok = write(append(opts, parquet.BloomFilterCompression(&gzip.Codec{})), rowsFill)
+		data, ok = write(append(opts, parquet.BloomFilterCompression(&parquet.Gzip)), rowsFill)
 	case "write+v1":
 		data, ok = write(append(opts, parquet.DataPageVersion(1)), rowsFill)
-	case "rowgroup(buffer)":
+	case "rowgroup(buffer)", "rowgroup(buffer)+dict-fallback":
+		if path == "rowgroup(buffer)+dict-fallback" {
+			opts = append(opts, parquet.DefaultEncoding(&parquet.RLEDictionary), parquet.DictionaryMaxBytes(1), parquet.PageBufferSize(1))
+		}
 		b := parquet.NewBuffer(schema)
 		if _, err := b.WriteRows(rows); err != nil {
 			x.Failf("write-error", shape, "buffer: %v", err)
 			return
 		}
 		data, ok = write(opts, func(w *parquet.Writer) error { _, err := w.WriteRowGroup(b); return err })
-	case "rowgroup(file,copy)", "rowgroup(file,recode)", "rowgroup(file,nobloom-src)":
+	case "rowgroup(file,copy)", "rowgroup(file,recode)", "rowgroup(file,nobloom-src)", "rowgroup(file,recode)+dict-fallback":
 		srcOpts := opts
 		if path == "rowgroup(file,nobloom-src)" {
 			srcOpts = []parquet.WriterOption{schema}
@@ -233,6 +238,9 @@ func c07Run(x *engine.X) {
 		dstOpts := opts
 		if path == "rowgroup(file,recode)" {
 			dstOpts = append(dstOpts, parquet.Compression(&snappy.Codec{}))
+		}
+		if path == "rowgroup(file,recode)+dict-fallback" {
+			dstOpts = append(append([]parquet.WriterOption{}, opts...), parquet.Compression(&snappy.Codec{}), parquet.DefaultEncoding(&parquet.RLEDictionary), parquet.DictionaryMaxBytes(1), parquet.PageBufferSize(1))
 		}
 		data, ok = write(dstOpts, func(w *parquet.Writer) error {
 			for _, rg := range sf.RowGroups() {
@@ -338,7 +346,7 @@ func init() {
 	Register(&engine.Prop{
 		ID:    "C07",
 		Level: "exploration",
-		Rule: "14 physical/fixed-length types (boolean, int32, int64, int96, float, double, byte array, flba 1/3/4/8/12/16/17) x {required, optional, repeated} x 12 build paths (incremental, dictionary, dictionary->plain fallback, small pages, several row groups, deferred, gzip-compressed, v1, WriteRowGroup of buffer / file copy / file re-encode / source without filter) x value sets {all sequences of <=3 boundary values, n distinct values around 128/256, few values repeated} x bits per value {10,1}; every non-null value of every row group is probed through ColumnChunk.BloomFilter().Check and through spec hashing of the raw bitset (pqref); " +
+		Rule: "14 physical/fixed-length types (boolean, int32, int64, int96, float, double, byte array, flba 1/3/4/8/12/16/17) x {required, optional, repeated} x 14 build paths (incremental, dictionary, dictionary->plain fallback, small pages, several row groups, deferred, gzip-compressed, v1, WriteRowGroup of buffer / file copy / file re-encode / source without filter) x value sets {all sequences of <=3 boundary values, n distinct values around 128/256, few values repeated} x bits per value {10,1}; every non-null value of every row group is probed through ColumnChunk.BloomFilter().Check and through spec hashing of the raw bitset (pqref); " +
 			"non-trivial = >=2 values",
 		Assumptions: []string{"values probed are the Values read back from the row group (C01 establishes they equal what was written)"},
 		Bound:       func(string) int { return 0 },
